@@ -20,7 +20,7 @@ def engine_model(ctx, cov):
         ["small", "cyc", "cycneg", "negloop", "nested", "multirec", "fam3", "big"]
     # configurations that MUST produce a counterexample: the engine before the two repairs (KF4, KF1), the known finding KF2
     # in model form, and the naive KF2 repair that TLC refuted (NoDanglingMessages)
-    fail = ["Engine_prefix_tablehit.cfg", "Engine_kf2.cfg"] + \
+    fail = ["Engine_prefix_tablehit.cfg", "Engine_kf2.cfg", "Engine_kf42.cfg"] + \
         ([] if ctx.tier == "quick" else ["Engine_prefix_falseresult.cfg", "Engine_kf2_linkstop.cfg"])
     ecov, diffs, H = enginemodel.replay(ctx, ["Engine_%s.cfg" % f for f in fams], ["Engine_%s_export.cfg" % f for f in fams + ["kf2"]],
                                         expect_fail=fail, timeout=ctx.pick(1800, 9000))
